@@ -353,3 +353,38 @@ def summary_rules(repo, rep, prefix, level_iv=None):
   liv = Iv(0.0, 1.0) if guard else Iv(-INF, INF)
   n = quantile_order(rep, f, prefix + 'R3/quantile-order', level_iv or liv, sites)
   rep.floor('quantile-order obligations of TBR.summary', n, 4)
+
+
+def kwarg_subdict_rule(repo, rep, rule):
+  """utils.kwarg_subdict forwards every keyword argument whose name carries the prefix, whatever its value
+  (0 and False are legitimate group / period labels)."""
+  f = repo.func('utils.kwarg_subdict')
+  rep.fn(f)
+  bad = []
+  n = 0
+  for sub in walk_no_nested(f.node):
+    conds = []
+    if isinstance(sub, (ast.DictComp, ast.ListComp, ast.SetComp, ast.GeneratorExp)):
+      for gen in sub.generators:
+        valnames = set()
+        if isinstance(gen.target, ast.Tuple) and len(gen.target.elts) == 2 and norm(gen.iter).endswith('.items()'):
+          valnames.add(norm(gen.target.elts[1]))
+        for c in gen.ifs:
+          conds.append((c, valnames))
+    elif isinstance(sub, ast.If):
+      conds.append((sub.test, set()))
+    for c, valnames in conds:
+      n += 1
+      t = norm(c)
+      uses_value = bool(re.search(r'kwargs\[\w+\]|kwargs\.get\(', t)) or any(re.search(r'\b%s\b' % re.escape(v), t) for v in valnames)
+      if uses_value:
+        bad.append(c)
+  rep.check(not bad, rule, 'kwarg_subdict filters on the keyword name only (values such as 0 are forwarded)', f.qualname,
+            '; '.join(norm(b)[:60] for b in bad), 'kwarg_subdict drops keyword arguments depending on their value (%s): a group or period label equal to 0 silently falls back to the default label'
+            % '; '.join(norm(b)[:60] for b in bad), f.loc(bad[0]) if bad else f.loc())
+  rets = [x for x in walk_no_nested(f.node) if isinstance(x, ast.Return) and x.value is not None]
+  ok = len(rets) == 1 and isinstance(rets[0].value, (ast.DictComp, ast.Name, ast.Call))
+  if len(rets) == 1 and isinstance(rets[0].value, ast.DictComp):
+    v = norm(rets[0].value.value)
+    rep.check(re.fullmatch(r'kwargs\[\w+\]|\w+', v) is not None, rule, 'kwarg_subdict forwards the value unchanged', f.qualname, v[:60],
+              'kwarg_subdict forwards `%s` instead of the keyword\'s value' % v[:60], f.loc(rets[0]))
